@@ -78,6 +78,7 @@ def worker(k, q, out_lock, outf, base):
         t0 = time.time()
         status, by, facts = "?", "", ""
         try:
+          try:
             rc, o = sh([os.path.join(HARN, "bin", "mutate"), "-file", os.path.join("/repo", f), "-n", str(n), "-out", os.path.join(w, f)])
             if rc != 0:
                 status = "mutate-error"
@@ -87,11 +88,14 @@ def worker(k, q, out_lock, outf, base):
                     status = "nocompile"
                 else:
                     pk = ["./trie/", "./index/"] if f.startswith("trie/") else (["./index/"] if f.startswith("index/") else ["./..."])
-                    rc, o = sh(["go", "test", "-vet=off", "-count=1", "-failfast", "-timeout", "8m"] + pk, cwd=w, timeout=900)
+                    # (address-space limit: a mutant that allocates without bound must not take the machine down)
+                    rc, o = sh(["bash", "-c", "ulimit -v 12000000; exec go test -vet=off -count=1 -failfast -timeout 8m " + " ".join(pk)], cwd=w, timeout=900)
                     if rc != 0:
                         status = "killed"
                     else:
                         status, by, facts = probe(w, h, base)
+          except Exception as e:
+            status, by = "error", repr(e)[:100]
         finally:
             sh(["git", "-C", w, "checkout", "--", "."])
         with out_lock:
@@ -124,7 +128,7 @@ def probe(w, h, base):
             continue
         d = os.path.join(h, "out_" + p)
         shutil.rmtree(d, ignore_errors=True)
-        rc, o = sh([run, "-prop", p, "-tier", "quick", "-seed", "1", "-out", d], cwd=HARN, env=env, timeout=1200)
+        rc, o = sh(["bash", "-c", "ulimit -v 16000000; exec %s -prop %s -tier quick -seed 1 -out %s" % (run, p, d)], cwd=HARN, env=env, timeout=1200)
         if rc == 3 and os.path.exists(os.path.join(d, "watchdog.json")):
             by.append(p + ":watchdog"); continue
         if rc != 0:
